@@ -559,6 +559,15 @@ def check_a(ck, repo):
         except (AnalysisError, Unsupported, LinErr) as e:
             ck.unknown("C11.a", fi, name, f"cannot follow one round of the recurrence: {e}")
             continue
+        import re as _re
+
+        opaque = sorted(set(_re.findall(r"[A-Za-z_]\w*\[[^\]]*\]", " ".join(str(sm[k_]) for k_ in ("dest", "src_lower", "src_upper", "step_pos")))))
+        if opaque:
+            # block bounds read from a table this interpretation does not evolve (e.g. boundaries
+            # computed beforehand by accumulate): the recurrence is written another way
+            ck.unknown("C11.a", fi, f"{name}: destination {sm['dest']}", f"the bounds of the block written are read from {opaque[:3]}, a table filled outside the step this rule follows: widths and positions are not decided")
+            ck.extra.setdefault("c11_opaque", []).append(name)
+            continue
         ck.verdict(sm["widths_equal"] == "True", "C11.a", fi, f"{name}: destination {sm['dest']}, source [{sm['src_lower']}, {sm['src_upper']})", "destination block exactly as wide as the source block", f"destination block ({sm['dest']}) is not as wide as the source block [{sm['src_lower']}, {sm['src_upper']}): numpy broadcasts or raises, and every later block is shifted")
         ck.verdict(sm["factor"] == "i (+1)", "C11.a", fi, f"{name}: factor column {sm['factor']}", "the block is multiplied by the single column i", f"the factor columns are {sm['factor']}, not the single column i")
         ck.verdict(sm["operands"] == str(["XP", "X", "XP"]), "C11.a", fi, f"{name}: operands {sm['operands']}", "source and destination are blocks of the output, factor comes from the input", "multiply operands are not (XP block, X column, XP block)")
@@ -598,6 +607,12 @@ def check_b(ck, repo):
             b = summarise(repo, names, "names", io)
         except (AnalysisError, Unsupported, LinErr, IndexError, KeyError) as e:
             ck.unknown("C11.b", tf, f"{tname} vs names(interaction_only={io})", f"cannot summarise one round of the recurrences: {e}")
+            continue
+        import re as _re
+
+        opq = sorted(set(_re.findall(r"[A-Za-z_]\w*\[[^\]]*\]", " ".join(str(d_.get(k_)) for d_ in (a, b) for k_ in ("dest", "src_lower", "src_upper", "step_pos")))))
+        if opq:
+            ck.unknown("C11.b", tf, f"{tname} vs names(interaction_only={io})", f"one of the recurrences reads its block bounds from {opq[:3]}, a table filled outside the step this rule follows: the two recurrences are not compared")
             continue
         for k in SHARED:
             va, vb = a.get(k), b.get(k)
